@@ -377,16 +377,18 @@ class PixelAperture(Aperture):
 
         areas = []
         for apermask in apermasks:
-            slc_large, slc_small = apermask.get_overlap_slices(data.shape)
+            # use the same pixels as do_photometry: unmasked pixels with
+            # positive weight (annulus weights can be slightly negative
+            # due to rounding)
+            (slc_large,
+             aper_weights,
+             pixel_mask) = apermask._get_overlap_cutouts(data.shape, mask=mask)
 
             # if the aperture does not overlap the data return np.nan
             if slc_large is None:
                 area = np.nan
             else:
-                aper_weights = apermask.data[slc_small]
-                if mask is not None:
-                    aper_weights[mask[slc_large]] = 0.0
-                area = np.sum(aper_weights)
+                area = np.sum(aper_weights[pixel_mask])
 
             areas.append(area)
 
